@@ -102,6 +102,10 @@ package fetcher
 //@   assert before call#1 Init: arg6 == col
 //@   assert before call#1 Init: arg3 == box(res(NewTxnFrom, 1, 0))
 //@   tags C10 C03
+//@ // the replay runs over a transient store that holds the document only: never through a secondary index
+//@ func (*VersionedFetcher).Init
+//@   assert before call#1 Init: arg5 == res(None, 1, 0)
+//@   tags C03 C07
 //@
 //@ // ===== C07: an index restricts the documents that are fetched, so only conditions that every result must
 //@ // satisfy may be turned into index conditions: branches under _not and under _or are never used
